@@ -391,7 +391,7 @@ func ruleDBCodecColumn(c *Ctx, prefix, col string, w ssa.Value, wc string, targe
 			case strings.HasSuffix(p, "/plugins/range."+anRaw("parseHWAddr")):
 				okp = parserFallsBackToColonHex(c, p)
 				if !okp {
-					why = "parseHWAddr no longer contains the colon-hex fallback for lengths ParseMAC refuses"
+					why = "parseHWAddr is not total on what the writer produces: it lacks the colon-hex fallback for lengths ParseMAC refuses, or does not accept the empty string (hardware address of length 0)"
 				}
 			}
 		}
@@ -439,7 +439,24 @@ func parserFallsBackToColonHex(c *Ctx, full string) bool {
 			continue
 		}
 		s := fnCalls(fn)
-		return strings.Contains(s, "strings.Split") && (strings.Contains(s, "strconv.ParseUint") || strings.Contains(s, "encoding/hex"))
+		if !(strings.Contains(s, "strings.Split") && (strings.Contains(s, "strconv.ParseUint") || strings.Contains(s, "encoding/hex"))) {
+			return false
+		}
+		// the writer also produces the empty string (hlen 0): neither net.ParseMAC nor a split on ':'
+		// accepts it, so the parser must answer it explicitly - a successful return under len(s) == 0
+		exits, _ := ExitsOf(c, fn)
+		for _, e := range exits {
+			if len(e.Ret.Results) != 2 {
+				continue
+			}
+			if n, _ := e.Ex.NilState(e.St, e.Ret.Results[1]); n != 1 {
+				continue
+			}
+			if v, _ := histEq(e.St, regexp.MustCompile(`^len\(\$0\)$`), "0"); v == 1 {
+				return true
+			}
+		}
+		return false
 	}
 	return false
 }
@@ -468,6 +485,7 @@ func ruleRangeHandler(c *Ctx, prefix string, want map[string]bool) {
 		}
 	}
 	counts := map[string]int{}
+	var checkClock func(st *State, v string) bool
 	nowPlus := regexp.MustCompile(`\(time\.Time\)\.Add@(?:[\w$]+·)?t\d+\(time\.Now@(?:[\w$]+·)?t\d+\(\),\$0\.LeaseTime\)`)
 	ex.Hooks.Label = func(st *State, in ssa.Instruction) string {
 		switch x := in.(type) {
@@ -480,6 +498,9 @@ func ruleRangeHandler(c *Ctx, prefix string, want map[string]bool) {
 				return "allocate"
 			}
 			if f := x.Call.StaticCallee(); f != nil {
+				if f.String() == "time.Now" && st.Holds("$0.Mutex", 'W') {
+					return "clock:" + anm(x) // a clock reading taken inside the critical section
+				}
 				if isAnchor(f, "saveIPAddress") {
 					delete(st.seen, "dirty")
 					return "save"
@@ -541,6 +562,8 @@ func ruleRangeHandler(c *Ctx, prefix string, want map[string]bool) {
 				exp, _ := st.ReadLocal("new@" + anm(al) + ".expires")
 				if !nowPlus.MatchString(exp) {
 					addb("DB.EXPIRY", "a new record's expiry is not now + lease time: "+shortName(exp))
+				} else if checkClock != nil && !checkClock(st, exp) {
+					addb("DB.EXPIRY", fmt.Sprintf("the expiry stored for a new lease at %s is computed from a clock reading taken before the plugin lock was acquired: a request that waits for the lock stores an expiry that ends before the lease it promises", c.P.InstrPos(in)))
 				}
 			} else {
 				addb("RANGE.INSERT", "the value inserted is not a freshly built record")
@@ -567,6 +590,8 @@ func ruleRangeHandler(c *Ctx, prefix string, want map[string]bool) {
 				v := ex.Canon(st, x.Val).S
 				if !nowPlus.MatchString(v) {
 					addb("DB.EXPIRY", fmt.Sprintf("the stored expiry at %s is not derived from now + lease time (%s): it can end before the lease just promised", c.P.InstrPos(in), shortName(stripAt(v))))
+				} else if checkClock != nil && !checkClock(st, v) {
+					addb("DB.EXPIRY", fmt.Sprintf("the expiry stored at %s is computed from a clock reading taken before the plugin lock was acquired: a request that waits for the lock stores an expiry that ends before the lease it promises", c.P.InstrPos(in)))
 				}
 			case fieldName(fa) == "IP" && namedOf(fa.X.Type()) == modPath+"/plugins/range.Record":
 				if rootAlloc(fa.X) == nil {
@@ -575,6 +600,18 @@ func ruleRangeHandler(c *Ctx, prefix string, want map[string]bool) {
 			}
 		}
 	}
+	// the clock reading an expiry is computed from is taken inside the critical section:
+	// a request that waited for the lock must not store an expiry that ends before the lease it promises
+	clockInside := func(st *State, v string) bool {
+		ms := regexp.MustCompile(`time\.Now@((?:[\w$]+·)?t\d+)\(\)`).FindAllStringSubmatch(v, -1)
+		for _, m := range ms {
+			if !st.seen["clock:"+m[1]] {
+				return false
+			}
+		}
+		return len(ms) > 0
+	}
+	checkClock = clockInside
 	nReply, nDrop := 0, 0
 	ex.Hooks.Exit = func(st *State, in ssa.Instruction) {
 		ret, ok := in.(*ssa.Return)
